@@ -639,6 +639,8 @@ class Quaternion(np.ndarray):
             raise ValueError(f"Expected `q` to have shape (4,) or (3,), got {q.shape}.")
         if q.shape[-1] == 3:
             q = np.array([0.0, *q])
+        if not np.all(np.isfinite(q)):
+            raise ValueError("Quaternion must have finite values.")
         q_norm = np.linalg.norm(q)
         if q_norm == 0.0:
             raise ValueError("Quaternion cannot be a zero vector.")
@@ -2184,6 +2186,8 @@ class QuaternionArray(np.ndarray):
         q = np.array(q, dtype=float)
         if q.ndim != 2 or q.shape[-1] not in [3, 4]:
             raise ValueError(f"Expected array to have shape (N, 4) or (N, 3), got {q.shape}.")
+        if np.any(np.isinf(q)):
+            raise ValueError("Quaternion values must be finite.")
         q_norm = np.linalg.norm(q, axis=1)
         if sum(~(q_norm > 0)):
             raise ValueError("Quaternion values must be non-zero.")
